@@ -210,7 +210,22 @@ def judge(case, obs):
         from yamlpath.common import Nodes
         lhs = Nodes.build_next_node(p, 0, rhs)
     if c05.load(lhs_t) is None and not p.is_root:
-        return None if not line.startswith("(raise (crash") else "crash"
+        # an empty left document: whatever path gets created, the right-hand document must be in the result
+        if line.startswith("(ok"):
+            got = c05.plain_of_line(line)
+            r = c05.plain(rhs)
+
+            def contains(d):
+                if c05.p_eq(d, r):
+                    return True
+                if d[0] == "m":
+                    return any(contains(v) for _, v in d[1])
+                if d[0] == "s":
+                    return any(contains(v) for v in d[1])
+                return False
+            if not contains(got):
+                return "the right-hand document is missing from the result of a merge into an empty document: %r" % (got,)
+        return None
     proc = E["Processor"](C["log"], lhs)
     try:
         ncs = list(proc.get_nodes(p, default_value=rhs))
